@@ -293,3 +293,5 @@ def run(chk):
     from . import c13
     c13.rule_copy(chk)  # the start-up buffer retains what Logger.write hands it: it must be a private copy, not the caller's (re-usable) dict
     rule_lock(chk)
+    from . import c19
+    c19.rule_writer(chk)  # unregistration of the threaded writer: the stop marker is queued only after the writer stopped accepting messages
